@@ -4,8 +4,8 @@
    lengths, and the containment logic at the boundaries (see docs/C17.md for what is
    modelled and what is only exercised by the campaign). *)
 From Coq Require Import ZArith List Bool.
-From BV Require Import Model.HostileAt Model.HostileFields Model.HostileSdp Model.HostileHost Model.HostileRfcomm.
-From BV Require Import Proofs.HostileAt Proofs.HostileFields Proofs.HostileSdp Proofs.HostileHost Proofs.HostileRfcomm.
+From BV Require Import Model.HostileAt Model.HostileFields Model.HostileSdp Model.HostileHost Model.HostileRfcomm Model.HostileLoops.
+From BV Require Import Proofs.HostileAt Proofs.HostileFields Proofs.HostileSdp Proofs.HostileHost Proofs.HostileRfcomm Proofs.HostileLoops.
 From BV Require Import Gen.C17Tables.
 Import ListNotations.
 Open Scope Z_scope.
@@ -149,6 +149,19 @@ Theorem C17_sdp_work_linear : forall data, bytes_ok data = true ->
 Proof. exact (element_from_bytes_work_linear sdp_max_nesting). Qed.
 Print Assumptions C17_sdp_work_linear.
 
+(* End to end, as the property reads: whatever bytes arrive as an SDP data element, the
+   (patched) parser comes back - with a value or an ordinary error - after at most len + 1
+   parse_next calls and within the stated fuel. *)
+Theorem C17_sdp_element_prompt : forall data, bytes_ok data = true ->
+  element_from_bytes true sdp_max_nesting data <> SOutOfFuel /\
+  0 <= steps_of (element_from_bytes true sdp_max_nesting data) <= zlen data + 1.
+Proof.
+  intros data H.
+  exact (conj (element_from_bytes_terminates true sdp_max_nesting data H)
+              (element_from_bytes_work_linear sdp_max_nesting data H)).
+Qed.
+Print Assumptions C17_sdp_element_prompt.
+
 (* Without the patch the statement is false: 83 bytes cost more than 30 calls per byte. *)
 Theorem C17_sdp_work_linear_refuted_before_D17b :
   exists data, bytes_ok data = true /\
@@ -189,6 +202,76 @@ Theorem C17_rfcomm_payload_rule_refuted : forall fuel mtu buf credits,
   process_tx false fuel mtu buf credits 0 = None.
 Proof. exact process_tx_payload_rule_refuted. Qed.
 Print Assumptions C17_rfcomm_payload_rule_refuted.
+
+(* l2cap LeCreditBasedChannel.process_output (one SDU in progress): one PDU per credit, the
+   credits never go negative, for every peer MPS; with the loop guard "credits >= 0" a PDU is
+   sent without credit. *)
+Theorem C17_coc_output_within_credits : forall fuel mps sdu credits,
+  0 <= credits -> credits + 1 <= Z.of_nat fuel ->
+  exists rest c n, coc_output true fuel mps sdu credits = Some (rest, c, n) /\
+                   0 <= c /\ n + c = credits /\ 0 <= n.
+Proof. exact coc_output_spec. Qed.
+Print Assumptions C17_coc_output_within_credits.
+
+Theorem C17_coc_output_boundary_refuted : coc_output false 10 23 100 2 = Some (31, -1, 3).
+Proof. exact coc_output_boundary_refuted. Qed.
+Print Assumptions C17_coc_output_boundary_refuted.
+
+(* ------------------------------------------------------------------ two more TLV loops *)
+(* avdtp ServiceCapabilities.parse_capabilities and core AdvertisingData.append: fuel len + 1
+   is never used up, for every byte string (a zero length byte still consumes the header). *)
+Theorem C17_avdtp_capabilities_terminate : forall payload,
+  parse_capabilities (tlv_fuel payload) payload 0 <> None.
+Proof. exact parse_capabilities_terminates. Qed.
+Print Assumptions C17_avdtp_capabilities_terminate.
+
+Theorem C17_advertising_data_terminates : forall data,
+  parse_advertising (tlv_fuel data) data 0 <> None.
+Proof. exact parse_advertising_terminates. Qed.
+Print Assumptions C17_advertising_data_terminates.
+
+(* ------------------------------------------------------------------ shapes read from the source *)
+(* The constants of the loops the models copy, extracted from the AST of the anchored
+   functions on every run (tools/translate/c17_shapes.py, fail closed).  Each equation is
+   what the corresponding model was written from: a removed progress step, a changed bound
+   or comparison, a dropped guard makes the equation (or the extractor) fail. *)
+Theorem C17_options_loop_matches_source : options_loop_shape = [4; 2; 0; 1; 2; 2; 2].
+Proof. vm_compute. reflexivity. Qed.
+Print Assumptions C17_options_loop_matches_source.
+
+Theorem C17_sdp_parser_matches_source :
+  sdp_list_loop_shape = [4; 1; 1; 3; 1] /\ sdp_offset_check = 4 /\
+  sdp_size_forms = [(0, 1, 0, 0); (1, 2, 0, -1); (2, 4, 0, -1); (3, 8, 0, -1); (4, 16, 0, -1);
+                    (5, -1, 1, -1); (6, -1, 2, -1); (7, -1, 4, -1)].
+Proof. vm_compute. repeat split. Qed.
+Print Assumptions C17_sdp_parser_matches_source.
+
+Theorem C17_at_tokenizer_matches_source :
+  at_special_chars = [(c_space, 0); (c_comma, 1); (c_close, 1); (c_open, 2); (c_quote, 3)].
+Proof. vm_compute. reflexivity. Qed.
+Print Assumptions C17_at_tokenizer_matches_source.
+
+Theorem C17_process_tx_matches_source : process_tx_spends = [1; 0; 1].
+Proof. vm_compute. reflexivity. Qed.
+Print Assumptions C17_process_tx_matches_source.
+
+Theorem C17_coc_output_loop_matches_source : coc_output_loop_shape = [3; 0; 1; 1].
+Proof. vm_compute. reflexivity. Qed.
+Print Assumptions C17_coc_output_loop_matches_source.
+
+Theorem C17_credit_based_validation_matches_source : credit_based_validation = [23; 23; 1; 1; 1; 1].
+Proof. vm_compute. reflexivity. Qed.
+Print Assumptions C17_credit_based_validation_matches_source.
+
+Theorem C17_att_item_loops_match_source :
+  att_item_loop_shapes = [(5, 0, 2, -2); (7, 4, 4, 4); (9, 0, 2, 0); (17, 0, 4, 0)].
+Proof. vm_compute. reflexivity. Qed.
+Print Assumptions C17_att_item_loops_match_source.
+
+Theorem C17_tlv_loops_match_source :
+  capabilities_loop_shape = [1; 2; 2; 2] /\ advertising_loop_shape = [1; 1; 0; 1].
+Proof. vm_compute. split; reflexivity. Qed.
+Print Assumptions C17_tlv_loops_match_source.
 
 (* ------------------------------------------------------------------ Host.on_packet *)
 Theorem C17_host_undecodable_contained : forall st p,
@@ -253,6 +336,12 @@ Example C17_unknown_signalling_code_rejected :
   on_signalling_pdu unit (fun _ _ _ s => (s, [], false)) sig_classes sig_handled tt [200; 7; 0; 0]
   = (tt, [[1; 7; 2; 0; 0; 0]], SigRejected).
 Proof. vm_compute. reflexivity. Qed.
+
+Example C17_tlv_examples :
+  parse_capabilities (tlv_fuel [1; 0; 7; 2; 9; 9; 4]) [1; 0; 7; 2; 9; 9; 4] 0 = Some (inl LIndex) /\
+  parse_capabilities (tlv_fuel [1; 0; 7; 200; 9]) [1; 0; 7; 200; 9] 0 = Some (inr [(1, []); (7, [9])]) /\
+  parse_advertising (tlv_fuel [0; 0; 2; 1; 6; 9]) [0; 0; 2; 1; 6; 9] 0 = Some [(1, [6])].
+Proof. vm_compute. repeat split. Qed.
 
 Example C17_process_tx_mtu_zero :
   process_tx true (process_tx_fuel 7) 0 10 7 0 = Some (mkTx 10 0, [(0, false); (0, false); (0, false); (0, false); (0, false); (0, false); (0, false)]) /\
